@@ -38,7 +38,7 @@ PROPS = {
         'correspondence': CORR_L1,
         'coq': ['theories/Props/C04.vo', 'theories/Inst/C04_now.vo', 'theories/L1h/PropsC04.vo', 'theories/L1h/Inst.vo'],
         'profiles': [prof('sync', (80, 20), (2000, 80)), prof('core', (40, 10), (800, 40)), prof('pool', (30, 10), (600, 40))],
-        'monitors': ['C04'], 'liveness': True, 'panics': False,
+        'monitors': ['C04'], 'liveness': True, 'panics': True,
         'trusted_base': L1_TRUST,
         'assumptions': ['returns-for-pool-size-0 is exercised under the controlled runtime only (theorem C04_sync_returns_pool_partial needs a maximum >= 1); nested sync from inside jobs is exercised by the profiles, not modelled'],
     },
@@ -59,6 +59,7 @@ PROPS = {
         'assumptions': [],
     },
     'C11': {
+        'correspondence': {'kind': 'pipein', 'profiles': [prof('pipein', (40, 5), (400, 10)), prof('progs:pipein_extra.progs', (0, 10), (0, 60))]},
         'coq': ['theories/PipeIn/PropsC11.vo', 'theories/PipeIn/PropsC11_examples.vo', 'theories/Inst/C11_now.vo'],
         'profiles': [prof('pipein', (80, 20), (1500, 60), extra=['--max-steps', '30000'])],
         'monitors': ['C11', 'C01', 'C05'], 'liveness': True, 'panics': True,
